@@ -284,4 +284,49 @@ theorem standardize_defocus (syms : List String) (aliases : List (String × Stri
   standardizeFrom_defocus syms aliases l1 l2 [] r x hn h
 
 end aliasLemmas
+set_option maxHeartbeats 1600000 in
+/-- the translated loop body of `standardize_aberration_coefs` is the hand model's step, for EVERY key and value -/
+theorem standardize_step_translated (out : List (String × ℝ)) (k : String) (v : Option ℝ) :
+    standardize_aberration_coefs_step out k v = standardizeStep POLAR_SYMBOLS POLAR_ALIASES out k v := by
+  by_cases hk : k ∈ ALIAS_KEY_UNIVERSE
+  · simp only [ALIAS_KEY_UNIVERSE, List.mem_cons, List.not_mem_nil, or_false] at hk
+    rcases hk with rfl | rfl | rfl | rfl | rfl | rfl | rfl | rfl | rfl | rfl | rfl | rfl | rfl | rfl | rfl | rfl |
+      rfl | rfl | rfl | rfl | rfl | rfl | rfl | rfl | rfl | rfl | rfl | rfl | rfl | rfl | rfl | rfl <;>
+    cases v <;> rfl
+  · simp only [ALIAS_KEY_UNIVERSE, List.mem_cons, List.not_mem_nil, or_false, not_or] at hk
+    simp only [standardize_aberration_coefs_step, standardizeStep, POLAR_SYMBOLS, POLAR_ALIASES, aliasTarget, hk,
+      if_false, Option.getD_none, List.contains_cons, List.contains_nil, Bool.or_false, beq_iff_eq, Bool.or_eq_true,
+      or_self, or_false, Ne.symm, false_or]
+    cases v <;> simp [hk, eq_comm]
+
+
+set_option maxHeartbeats 1600000 in
+/-- the translated loop body of `validators.validate_aberration_coefficients` (its own table copies) -/
+theorem validate_step_translated (out : List (String × ℝ)) (k : String) (v : Option ℝ) :
+    validate_aberration_coefficients_step out k v
+      = .ok (processStep VALIDATORS_POLAR_SYMBOLS VALIDATORS_POLAR_ALIASES out k v) := by
+  by_cases hk : k ∈ ALIAS_KEY_UNIVERSE
+  · simp only [ALIAS_KEY_UNIVERSE, List.mem_cons, List.not_mem_nil, or_false] at hk
+    rcases hk with rfl | rfl | rfl | rfl | rfl | rfl | rfl | rfl | rfl | rfl | rfl | rfl | rfl | rfl | rfl | rfl |
+      rfl | rfl | rfl | rfl | rfl | rfl | rfl | rfl | rfl | rfl | rfl | rfl | rfl | rfl | rfl | rfl <;>
+    cases v <;> rfl
+  · simp only [ALIAS_KEY_UNIVERSE, List.mem_cons, List.not_mem_nil, or_false, not_or] at hk
+    simp only [validate_aberration_coefficients_step, hk, if_false]
+    cases v <;>
+      simp [processStep, VALIDATORS_POLAR_SYMBOLS, VALIDATORS_POLAR_ALIASES, aliasTarget, hk, eq_comm]
+
+set_option maxHeartbeats 1600000 in
+/-- the translated loop body of the `ProbeBase.probe_params` setter (non-dict values) -/
+theorem probe_params_step_translated (out : List (String × ℝ)) (k : String) (v : Option ℝ) :
+    probe_params_setter_step out k v = .ok (processStep POLAR_SYMBOLS POLAR_ALIASES out k v) := by
+  by_cases hk : k ∈ ALIAS_KEY_UNIVERSE
+  · simp only [ALIAS_KEY_UNIVERSE, List.mem_cons, List.not_mem_nil, or_false] at hk
+    rcases hk with rfl | rfl | rfl | rfl | rfl | rfl | rfl | rfl | rfl | rfl | rfl | rfl | rfl | rfl | rfl | rfl |
+      rfl | rfl | rfl | rfl | rfl | rfl | rfl | rfl | rfl | rfl | rfl | rfl | rfl | rfl | rfl | rfl <;>
+    cases v <;> rfl
+  · simp only [ALIAS_KEY_UNIVERSE, List.mem_cons, List.not_mem_nil, or_false, not_or] at hk
+    simp only [probe_params_setter_step, hk, if_false]
+    cases v <;>
+      simp [processStep, POLAR_SYMBOLS, POLAR_ALIASES, aliasTarget, hk, eq_comm]
+
 end QuantemModel.Aberration
